@@ -1043,6 +1043,17 @@ fn eval0(g: &G, pos: usize, env: Env, w: &mut World) -> R {
             let bd = Bounds::new(n, Some(n));
             run_sink(&Sink::Vec, pos, env, w, &mut by(|k, p, w| rep_next(item, &bd, k, p, env, w)))
         }
+        CtxBare(kind, item) => {
+            if *kind % 3 == 2 && env.ctx == 'c' {
+                let err = w.custom_err(pos, (pos, pos), "TC");
+                w.add_err(err);
+                return None;
+            }
+            let n = count_of(env.ctx) as u8;
+            let bd = if *kind % 3 == 1 { Bounds::new(0, Some(n)) } else { Bounds::new(n, Some(n)) };
+            let sink = if *kind < 3 { Sink::Bare } else { Sink::Count };
+            run_sink(&sink, pos, env, w, &mut by(|k, p, w| rep_next(item, &bd, k, p, env, w)))
+        }
         RepCtxPre(item, st, kind) => {
             let n = count_of(env.ctx) as u8;
             let (mn, mx) = pre_effective(st, *kind, n);
